@@ -227,3 +227,6 @@ def run(ctx):
                 and mentions(call_args(pu[0].args[1])[1], lambda s: s == ("param", 2)) and not mentions(nx[0].args[0], lambda s: is_call(s, "::rev", "::skip", "::take", "::filter"))
         ctx.check(ok, "D2-ALL-CHECKSUMS", fn, "one-verdict-per-checksum", "results.push(verify_checksum_internal(path, c.digest)) for every recorded checksum, in order",
                   "%s does not produce exactly one verdict per recorded checksum (in order, for that checksum's own digest, on the given path)" % fn, fn_span(body))
+
+    # ---- the lookups verification starts from
+    distinfo_accessors(ctx, "D5-ACCESSOR", only=("get_distfile", "get_patchfile"))
